@@ -12,6 +12,7 @@ import (
 	"fmt"
 	"io"
 	"net"
+	"os"
 	"sync"
 	"sync/atomic"
 	"time"
@@ -27,7 +28,9 @@ type DirScript struct {
 	Bufs       []int  `json:"bufs"`        // reader buffer sizes (>= 1), cycled
 	PauseEvery int    `json:"pause_every"` // reader sleeps PauseUs after every PauseEvery reads (0: never)
 	PauseUs    int    `json:"pause_us"`
-	StopAfter  int    `json:"stop_after"` // reader closes its end once it has read this many bytes (< 0: reads to end-of-stream)
+	StopAfter  int    `json:"stop_after"`        // reader closes its end once it has read this many bytes (< 0: reads to end-of-stream)
+	Kicks      int    `json:"kicks,omitempty"`   // a third goroutine sets a past write deadline on the writing end this many times
+	KickUs     int    `json:"kick_us,omitempty"` // ... this far apart; the writer clears the deadline and carries on
 }
 
 // StreamScript is one stream: Dir[0] is written by the opener, Dir[1] by the
@@ -384,8 +387,26 @@ func (w *workRun) describeStall(streams []*workStream) string {
 func (w *workRun) writer(ws *workStream, k int) {
 	sc, d, e := &ws.sc.Dir[k], ws.dir[k], ws.ends[k]
 	key := contentKey(ws.idx, k)
+	// Deadline kicker: past write deadlines arrive from another goroutine
+	// while the writer may be blocked (on send window or on a write buffer).
+	stopKicks := make(chan struct{})
+	kicksDone := make(chan struct{})
+	go func() {
+		defer close(kicksDone)
+		for i := 0; i < sc.Kicks; i++ {
+			select {
+			case <-stopKicks:
+				return
+			case <-time.After(time.Duration(max(sc.KickUs, 1)) * time.Microsecond):
+			}
+			e.st.SetWriteDeadline(time.Now().Add(-time.Second))
+			w.progress.Add(1)
+		}
+	}()
 	var buf []byte
 	off := uint64(0)
+	expiries := 0
+chunks:
 	for _, n := range sc.Chunks {
 		if n < 0 {
 			n = 0
@@ -395,22 +416,40 @@ func (w *workRun) writer(ws *workStream, k int) {
 		}
 		b := buf[:n]
 		fill(b, key, off)
-		got, err := e.st.Write(b)
-		w.progress.Add(1)
-		if got < 0 || got > n {
-			d.shortWrite = fmt.Sprintf("Write(%d bytes) returned count %d", n, got)
-			got = 0
-		}
-		if err == nil && got != n {
-			d.shortWrite = fmt.Sprintf("Write(%d bytes) returned %d without an error", n, got)
-		}
-		off += uint64(got)
-		d.written.Store(off)
-		if err != nil {
+		for {
+			got, err := e.st.Write(b)
+			w.progress.Add(1)
+			if got < 0 || got > len(b) {
+				d.shortWrite = fmt.Sprintf("Write(%d bytes) returned count %d", len(b), got)
+				got = 0
+			}
+			if err == nil && got != len(b) {
+				d.shortWrite = fmt.Sprintf("Write(%d bytes) returned %d without an error", len(b), got)
+			}
+			off += uint64(got)
+			d.written.Store(off)
+			b = b[got:]
+			if err == nil {
+				break
+			}
+			// A kick expired the deadline: clear it and carry on with the
+			// rest of the chunk. Every kick can cause at most one expiry.
+			if errors.Is(err, os.ErrDeadlineExceeded) && expiries < sc.Kicks {
+				expiries++
+				cerr := e.st.SetWriteDeadline(time.Time{})
+				if cerr == nil {
+					continue
+				}
+				// Closed for writing meanwhile (Close of this end by its
+				// reader): that is the terminal condition to report.
+				err = cerr
+			}
 			d.wErr = err
-			break
+			break chunks
 		}
 	}
+	close(stopKicks)
+	<-kicksDone
 	if sc.End == "close" {
 		e.closing.Store(true)
 		e.st.Close()
